@@ -1,4 +1,4 @@
-import MpsVerif.Proofs.ProxyCallRefine
+import MpsVerif.Proofs.ProxyCallConc
 /-!
 # C14 — proxy calls behave like direct calls on the hosted object
 
@@ -81,6 +81,27 @@ theorem C14_unhosted_remoteError (sem : Sem H Op) (P : PState H) (r : Req Op) (h
     (proxyStep sem P r).2 = .remoteError ∧ (proxyStep sem P r).1.srv = P.srv := by
   rw [proxyStep_unhosted sem P r hh]; exact ⟨rfl, rfl⟩
 
+/-- Several clients (processes, threads) at once, any interleaving of their sends, of the serving
+    threads running the methods, and of the clients reading their replies: the run is
+    **linearisable** — the server state and all outcomes are those of the sequential proxy run over
+    `hist` (the requests in the order their methods ran; by `C14_refines_direct` that is the direct
+    semantics in that order) — and every client reads exactly the outcomes of its own requests,
+    in its own issue order (no reply goes to another caller, none is lost or duplicated). -/
+theorem C14_linearizable (sem : Sem H Op) (S0 : Server H) (conn0 : Nat → Bool) (s : CState H Op)
+    (hr : Core.Reach (cstep sem) (cinit S0) s) :
+    (proxyRun sem ⟨S0, conn0⟩ s.hist).1.srv = s.srv ∧
+    (proxyRun sem ⟨S0, conn0⟩ s.hist).2 = s.execOuts ∧
+    (∀ c, outsOf c s.hist s.execOuts = gotOf c s.got ++ (s.reply c).toList) ∧
+    (Valid sem ⟨S0, conn0⟩ s.hist →
+      s.execOuts = (directRun sem S0.heap (s.hist.map fun r => (r.i, r.op))).2.map view ∧
+      s.srv.heap = (directRun sem S0.heap (s.hist.map fun r => (r.i, r.op))).1) := by
+  have h := cinv_reach sem S0 conn0 hr
+  refine ⟨h.lin.1, h.lin.2, h.fifo, ?_⟩
+  intro hv
+  have := refines sem s.hist ⟨S0, conn0⟩ hv
+  rw [h.lin.2, h.lin.1] at this
+  exact this
+
 /-! ## non-vacuity (concrete semantics `pySem`)
 
 Heap: a Counter at 0 (hosted) whose log list lives at 1 (not hosted), a list at 2 (hosted).
@@ -110,5 +131,13 @@ example : Valid pySem demoState demoReqs := by
 
 /-- before `history()` made it hosted, address 1 cannot be reached through a proxy -/
 example : (proxyStep pySem demoState ⟨2, 1, .len⟩).2 = .remoteError := by decide
+
+/-- two clients overlap: client 1's `add 5` runs between client 0's send and the run of its `cget`;
+    client 0 reads 5, client 1 reads 5; `hist` is the order the methods ran in -/
+example : ∃ s, Core.run (cstep pySem) (cinit demoState.srv)
+      [.send 0 0 .cget, .send 1 0 (.add 5), .exec 1, .exec 0, .recv 0, .recv 1] = some s ∧
+    s.got = [(0, .returned (.int 5)), (1, .returned (.int 5))] ∧
+    s.hist.map (·.c) = [1, 0] :=
+  ⟨_, rfl, by decide⟩
 
 end ProxyCall
